@@ -412,6 +412,9 @@ fn main() {
             reg_gen!(jobs, "pow", 300, strat_pow, body_pow; [2048, 4096]);
             reg_gen!(jobs, "log", 300, strat_log, body_log; [2048, 4096]);
             reg_gen!(jobs, "root", 300, strat_root, body_root; [2048, 4096]);
+            reg_gen!(jobs, "pow", 100, strat_pow, body_pow; [4160]);
+            reg_gen!(jobs, "log", 100, strat_log, body_log; [4160]);
+            reg_gen!(jobs, "root", 60, strat_root, body_root; [4160]);
             // every power of 17 fixed bases (and its neighbours) at a spread of widths, including
             // two far above the float-estimate range of the logarithm
             reg_powers!(jobs, 1; [7, 8, 16, 32, 63, 64, 65, 100, 127, 128, 129, 192, 255, 256, 257, 320, 512, 535, 1024, 2048, 4096]);
